@@ -154,7 +154,15 @@ def main(argv=None):
         bounded = run_standin(P, prop, a.repo, a.tier, seed)
         for b in bounded:
             if b.get('violation'):
-                violations.append((dict(name=b['name'], status='refuted', model=b.get('witness', ''), function=b.get('function', '')), b))
+                h = hashlib.sha1((b['name'] + json.dumps(b.get('witness', ''), default=str)).encode()).hexdigest()[:10]
+                b['path'] = os.path.join(HERE, 'out', 'replay', f'{prop}-standin-{h}.json')
+                b['reproduced'] = True
+                w = b.get('witness') or [{}]
+                b['summary'] = (w[0].get('summary') or w[0].get('message') or '') if isinstance(w[0], dict) else str(w[0])
+                json.dump(dict(property=prop, obligation=f'bounded stand-in {b["name"]} ({b.get("bound", "")})', undecided=[o['name'] for o in open_] + list(unsupported),
+                               witness=b.get('witness'), reproduced=True, replay_cmd=f'./check {prop}'), open(b['path'], 'w'), indent=1, default=str)
+                violations.append((dict(name=f"bounded stand-in {b['name']} for the undecided part (" + ', '.join(list(unsupported)[:3] + [o['name'] for o in open_][:2]) + ')',
+                                        status='refuted', model=str(b.get('witness', ''))[:600], function=b.get('function', '')), b))
 
     # ------------------------------------------------------------ report
     for k, o in known_hits:
@@ -197,7 +205,7 @@ def run_replay(P, prop, o, repo):
     if mod:
         try:
             env = dict(os.environ, PYTHONPATH=f'{repo}:{HERE}', PYTHONHASHSEED='0')
-            cp = subprocess.run([sys.executable, '-m', mod, '--obligation', o['name'], '--repo', repo] + (['--prop', prop] if mod == 'replay.explore' else []),
+            cp = subprocess.run([sys.executable, '-m', mod, '--obligation', o['name'], '--repo', repo] + (['--prop', prop] if mod in ('replay.explore', 'replay.values') else []),
                                 capture_output=True, text=True, timeout=600, env=env, cwd=HERE)
             out = cp.stdout.strip().splitlines()
             res = json.loads(out[-1]) if out else {}
